@@ -20,7 +20,7 @@ int main(int argc, char **argv)
     for (std::size_t p = 0; p < parts; ++p)
       vrt::shard("char/nodes" + std::to_string(n) + "/" + std::to_string(p), [=] {
         auto const by = c02::all_by_size(n);
-        c02::run_block<char>("parse<char>", by[static_cast<std::size_t>(n)], p, parts, th ? sk_all : sk_quick, th ? 5 : 4, th ? 4 : 3);
+        c02::run_block<char>("parse<char>", by[static_cast<std::size_t>(n)], p, parts, th ? sk_all : sk_quick, th ? 5 : 4, th ? 4 : 3, n <= (th ? 3 : 2));
       }, 120);
   }
   c02::register_wchar(th);
